@@ -25,7 +25,9 @@ EXPLANATION = (
     "loader blocks agree: each of the eight ACL blocks (router, wireless router, six firewall lists) takes every add_rule "
     "argument from the key its siblings use, never a src_ value for a dst_ argument, position = the mapping key, and adds "
     "to the list the block iterates over; every Network.connect of a node-set adder that declares `bandwidth` passes it; "
-    "R20.6 each episode is built from a freshly parsed / deep-copied scenario dict (the loaders consume theirs). NOT decided: "
+    "R20.6 each episode is built from a freshly parsed / deep-copied scenario dict (the loaders consume theirs); R20.7 every "
+    "resolved listening port reaches the append in _set_software_listen_on_ports (number or name), and no scenario mapping is read "
+    "by position (`list(m.values())[i]`). NOT decided: "
     "inventory equality for arbitrary scenario files and behavioural identity under re-serialisation."
 )
 TECHNIQUE = "static: key-guard/read agreement, schema-option reader inventory, local dataflow of declared values into constructors, loader sibling agreement (ACL blocks, node-set links), fresh-dict return check of the episode schedulers"
@@ -408,6 +410,61 @@ def r20_6(ctx: Ctx) -> None:
 
 
 
+def r20_7(ctx: Ctx) -> None:
+    """(a) Every declared listening port is applied: in the helper that turns `listen_on_ports` into the service's port set, each
+    iteration that resolved a port reaches the append - whichever way the port was written (number or name).
+    (b) A mapping declared in the scenario is read by key, never by position (`list(m.values())[i]` depends on the order the keys
+    were written in)."""
+    ix = ctx.ix
+    ctx.rule("R20.7", "every declared listening port reaches the service's port set (number or name); scenario mappings are indexed "
+                      "by key, not by position")
+    fc = ix.method("PrimaiteGame.from_config")
+    helper = next((f for f in ix.nested_funcs(fc) if f.name == "_set_software_listen_on_ports"), None)
+    if helper is None:
+        raise AnalysisError("R20.7: _set_software_listen_on_ports not found in from_config")
+    g = CFG(helper.node)
+    loops = [n for n in g.nodes if n.kind == "for" and "listen_on_ports" in unparse(n.ast.iter)]
+    apps = [n for n in g.nodes if any(call_name(c) in ("append", "add") for c in node_calls(n)) and n.loops]
+    if not loops or not apps:
+        raise AnalysisError("R20.7: the loop over listen_on_ports / its append was not recognised")
+    lp = loops[0]
+    resolved = [n for n in g.nodes if lp.ast in n.loops and n.kind == "stmt" and isinstance(n.ast, ast.Assign)
+                and not (isinstance(n.ast.value, ast.Constant) and n.ast.value.value is None)]
+    bad = None
+    app_target = {unparse(c.args[0]) for n in apps for c in node_calls(n) if call_name(c) in ("append", "add") and c.args}
+    for r in resolved:
+        tv = unparse(r.ast.targets[0])
+        if tv not in app_target:
+            continue
+        # from a store of a resolved port back to the loop head without the append: only through the `port` falsy edge
+        p = g.path_avoiding([lp], lambda e, tv=tv: bool(e.label and e.label[0] == "cond" and unparse(e.label[1]) == tv and e.label[2] is False),
+                            start=r, blocked_nodes={a.id for a in apps})
+        if p is not None:
+            bad = (r, p)
+            break
+    ctx.record("R20.7", ctx.key(helper, "a resolved listening port is always added"), helper.loc(lp.ast), bad is None,
+               "every way of writing a port (number, name) leads to the append" if bad is None else
+               f"a port resolved at line {bad[0].lineno} can reach the next iteration without being added: declared listening ports of that "
+               "form are silently dropped", path_text(bad[1]) if bad else None)
+    n = 0
+    for fn in ix.functions:
+        if isinstance(fn.node, ast.Lambda) or not fn.path.startswith(("src/primaite/session/", "src/primaite/game/game.py", "src/primaite/simulator/network/")):
+            continue
+        for x in ast.walk(fn.node):
+            if isinstance(x, ast.Subscript) and isinstance(x.value, ast.Call) and isinstance(x.value.func, ast.Name) and x.value.func.id in ("list", "tuple") \
+                    and x.value.args and isinstance(x.value.args[0], ast.Call) and isinstance(x.value.args[0].func, ast.Attribute) \
+                    and x.value.args[0].func.attr in ("values", "keys", "items") and not isinstance(x.slice, ast.Slice):
+                n += 1
+                src = unparse(x.value.args[0].func.value)
+                cfg_like = any(w in src for w in ("schedule", "cfg", "config", "episode_data"))
+                ctx.record("R20.7", ctx.key(fn, f"{unparse(x)[:60]} is not a positional read of a scenario mapping"), fn.loc(x), not cfg_like,
+                           "not a scenario mapping" if not cfg_like else
+                           f"`{unparse(x)[:70]}` picks an entry of the declared mapping `{src}` by position: which entry that is depends on the "
+                           "order the keys were written in the file")
+    ctx.count("R20.7:positional reads of mappings inspected", n)
+
+
+
 def check(ctx: Ctx) -> None:
     r20_1(ctx)
     r20_2(ctx)
@@ -415,3 +472,4 @@ def check(ctx: Ctx) -> None:
     r20_4(ctx)
     r20_5(ctx)
     r20_6(ctx)
+    r20_7(ctx)
